@@ -24,6 +24,8 @@ pub struct DuplexCfg {
     pub tail: Us,
     pub deadline: Duration,
     pub keep_snapshots: bool,
+    /// Each side performs its end action only after its reader got everything it expects.
+    pub coordinated_close: bool,
 }
 
 impl DuplexCfg {
@@ -82,10 +84,19 @@ pub async fn duplex_scenario(world: Arc<World>, cfg: DuplexCfg, case_seed: u64) 
         conn: 0,
         side,
     };
-    let hw0 = tokio::spawn(run_writer(ctx(0), wa, k0, cfg.w[0].clone(), rng.fork(1)));
-    let hw1 = tokio::spawn(run_writer(ctx(1), wb, k1, cfg.w[1].clone(), rng.fork(2)));
-    let hr0 = tokio::spawn(run_reader(ctx(0), ra, k1, cfg.r[0].clone(), rng.fork(3)));
-    let hr1 = tokio::spawn(run_reader(ctx(1), rb, k0, cfg.r[1].clone(), rng.fork(4)));
+    let (mut g0, mut g1, mut d0, mut d1) = (None, None, None, None);
+    if cfg.coordinated_close {
+        let (t0, r0) = tokio::sync::oneshot::channel();
+        let (t1, r1) = tokio::sync::oneshot::channel();
+        g0 = Some(r0);
+        g1 = Some(r1);
+        d0 = Some((cfg.w[1].total, t0));
+        d1 = Some((cfg.w[0].total, t1));
+    }
+    let hw0 = tokio::spawn(run_writer(ctx(0), wa, k0, cfg.w[0].clone(), rng.fork(1), g0));
+    let hw1 = tokio::spawn(run_writer(ctx(1), wb, k1, cfg.w[1].clone(), rng.fork(2), g1));
+    let hr0 = tokio::spawn(run_reader(ctx(0), ra, k1, cfg.r[0].clone(), rng.fork(3), d0));
+    let hr1 = tokio::spawn(run_reader(ctx(1), rb, k0, cfg.r[1].clone(), rng.fork(4), d1));
     out.w[0] = hw0.await.ok();
     out.w[1] = hw1.await.ok();
     out.r[0] = hr0.await.ok();
@@ -279,6 +290,7 @@ pub fn gen_plan(rng: &mut Prng, profile: Profile, ipv4: bool, a: &SockCfg, b: &S
         Profile::FairLossy => {
             p.loss = *rng.pick(&[0.01, 0.03, 0.08, 0.15, 0.3]);
             p.budget_per_identity = Some(1);
+            p.protect_handshake = true;
             if rng.chance(0.5) {
                 p.dup = *rng.pick(&[0.01, 0.1]);
             }
@@ -383,6 +395,15 @@ pub fn generate(case_seed: u64, profile: Profile, max_total: usize) -> Generated
         a.dont_wait_for_lastack = false;
         b.dont_wait_for_lastack = false;
     }
+    // The receive buffer must hold at least two of the largest segments *either* side can send
+    // (an endpoint raises its own segment size to the largest payload it has received, and
+    // advertises a zero window below one segment).
+    let maxp = a.max_payload(ipv4).max(b.max_payload(ipv4));
+    for c in [&mut a, &mut b] {
+        if let Some(rx) = c.rx_buf {
+            c.rx_buf = Some(rx.max(2 * maxp + 1));
+        }
+    }
     // direction sizes: often one-sided
     let (max0, max1) = match rng.below(4) {
         0 => (max_total, 1),
@@ -408,6 +429,7 @@ pub fn generate(case_seed: u64, profile: Profile, max_total: usize) -> Generated
             tail: 3 * SEC,
             deadline: Duration::from_secs(3600),
             keep_snapshots: false,
+            coordinated_close: profile != Profile::General,
         },
         plan,
         plan_desc,
